@@ -70,7 +70,10 @@ def detect(seed, checks):
     try:
         for c in checks:
             t = time.time()
-            rc, out = run(f"./check {c} --tier quick", cwd=SNAP)
+            try:
+                rc, out = run(f"./check {c} --tier quick", cwd=SNAP, timeout=1200)
+            except subprocess.TimeoutExpired:
+                rc, out = 3, "timeout after 1200 s"
             sigs = re.findall(r"signature=(\S+)", out)
             results[c] = {"exit": rc, "signatures": sigs[:6], "wall_s": round(time.time() - t, 1)}
             if rc == 2:
@@ -88,6 +91,12 @@ def prepare():
     run(f"git -C {REPO} worktree add -q --detach {SRC} HEAD")
     run(f"rsync -a --delete {VERIF}/harness/ {SNAP}/harness/")
     run(f"sed -i 's|path = \"/repo\"|path = \"{SRC}\"|' {SNAP}/harness/fpverif/Cargo.toml")
+    # the snapshot builds into its own target directory: sharing /verif/target lets two workspaces
+    # overwrite each other's target/release/fpverif, which child processes start by path
+    run(f"sed -i 's|target-dir = .*|target-dir = \"{SNAP}/target\"|' {SNAP}/harness/.cargo/config.toml")
+    if os.path.islink(f"{SNAP}/target"):
+        os.unlink(f"{SNAP}/target")
+    os.makedirs(f"{SNAP}/target", exist_ok=True)
     shutil.copy(f"{VERIF}/check", f"{SNAP}/check")
     shutil.copy(f"{VERIF}/known_findings.json", f"{SNAP}/known_findings.json")
     rc, out = run("./check C13 --tier quick", cwd=SNAP)
